@@ -25,6 +25,10 @@ CHECKS = {
    text="Exhaustive: every topology for n=2..6 (thorough 7) final particles (count (2n-3)!!, binary tree over exactly the finals, pairwise different, bijection with an independent enumeration, topology_id bijection, all ordered pairs of topology_same for n<=5 (6), sorted-table round trip); every decay group of <=3 chains (+1 renamed duplicate) from the 3 and 15 three-/four-body chains with renamed intermediates and with identical-particle names: class count, unique assignment, mother-daughter preserving maps.",
    note="Groupings are computed by the harness' own traversal; reference enumeration by recursive bipartition.",
    technique="exhaustive enumeration of labelled binary trees and small decay groups with a reference enumerator"),
+ "C15": dict(level="exploration", ref="4-C15",
+   text="Enumerates the line-shape functions of tf_pwa.breit_wigner (L=0..8 x d in {1,3,5} x m0 x Gamma0 x mass lattice) and the registered particle models through ConfigLoader/Particle.__call__ (BW, default/BWR, BWR2, BWR_below, BWR_normal, BWR_coupling, GS_rho, BWR_LS (+fix_bug1), BWR_LS2, Flatte, FlatteC, one, x, exp, exp_com) against the documented formulas evaluated independently in numpy complex128: value, Im R > 0, R(m0) = i/(m0 Gamma0), Gamma(m0) = Gamma0, B_L(q0)=1, barrier polynomial = |theta_L(iz)|^2 from exact reverse Bessel coefficients, q^2-variants, symbolic denominators.",
+   note="float64 tensor inputs; values compared above threshold, finiteness below; GS_rho at 1e-7 (documented pion masses are rounded to float32 inside the library).",
+   technique="bounded-exhaustive enumeration of (model, L, d, parameters, mass lattice) against independent closed-form references"),
 }
 
 NA_REASON = "check not built yet in this round (planned in DESIGN.md section 4)"
